@@ -54,6 +54,9 @@ type Spec struct {
 	Reroute []int `json:"reroute"`
 	// SamePointer: files with equal seed and tweak are passed as the very same *ach.File.
 	SamePointer bool `json:"same_pointer,omitempty"`
+	// NeedOpts: every file gets a destination with a wrong check digit and carries
+	// ValidateOpts{BypassDestinationValidation}: it is valid only under the options it carries.
+	NeedOpts bool `json:"need_opts,omitempty"`
 }
 
 // Files builds the files in the given order (a permutation of 0..n-1; nil = identity).
@@ -79,6 +82,17 @@ func (s Spec) Files(order []int) ([]*ach.File, error) {
 		}
 		if err := ApplyReroute(f, s.reroute(i)); err != nil {
 			return nil, err
+		}
+		if s.NeedOpts {
+			// a destination whose check digit is wrong: the file is valid only under the ValidateOpts it carries
+			d := f.Header.ImmediateDestination
+			if len(d) == 9 && d[8] >= '0' && d[8] <= '9' {
+				f.Header.ImmediateDestination = d[:8] + string(rune('0'+(d[8]-'0'+1)%10))
+				f.SetValidation(&ach.ValidateOpts{BypassDestinationValidation: true})
+				if err := f.Validate(); err != nil {
+					return nil, fmt.Errorf("NeedOpts made the file invalid: %w", err)
+				}
+			}
 		}
 		made[k] = f
 		out = append(out, f)
@@ -272,6 +286,7 @@ func DrawSpec(r *gen.Rand, maxFiles int) Spec {
 		s.Reroute = append(s.Reroute, reroute)
 	}
 	s.SamePointer = n >= 2 && r.Chance(1, 10)
+	s.NeedOpts = r.Chance(1, 6)
 	return s
 }
 
